@@ -104,7 +104,7 @@ Proof.
   { intros s0. unfold add_comment. destruct (l_comment T V D l); reflexivity. }
   destruct (l_stmt T V D l) as [[pre act]|] eqn:Es.
   - unfold do_stmt. cbn [s_pre s_act]. destruct (run_pre T V D W read_dep pre s) as [s2|] eqn:E2; [|discriminate]. cbn [bind].
-    pose proof (run_pre_world _ _ _ (NR _ eq_refl) E2) as W2. cbn in W2.
+    pose proof (run_pre_world _ _ _ (NR _ Es) E2) as W2. cbn in W2.
     pose proof (run_pre_line T V D W read_dep _ _ _ E2) as L2.
     unfold do_act. destruct (flush T V W s2) as [f|] eqn:Ef; [|discriminate]. cbn [bind].
     pose proof (flush_world _ _ Ef) as Wf. pose proof (flush_line T V W _ _ Ef) as Lf.
